@@ -4,6 +4,8 @@ import (
 	"errors"
 	"fmt"
 	"net"
+	"os"
+	"sync"
 	"time"
 
 	"github.com/echovault/sugardb/sugardb"
@@ -11,26 +13,58 @@ import (
 	"verif/harness/resp"
 )
 
-// freePort asks the kernel for a free TCP port on the loopback interface.
-func freePort() int {
-	l, err := net.Listen("tcp", "127.0.0.1:0")
-	if err != nil {
-		panic(err)
-	}
-	defer l.Close()
-	return l.Addr().(*net.TCPAddr).Port
+var portSeq struct {
+	mu   sync.Mutex
+	next int
 }
 
-// StartTCP starts the instance's listener on a fresh loopback port and waits
-// until it accepts connections.
+// freePort returns a loopback TCP port that is free right now. Ports are handed out sequentially
+// from a range derived from the process id, so that concurrently running worker processes do not
+// race for the same kernel-chosen port between the probe and the server's own Listen.
+func freePort() int {
+	portSeq.mu.Lock()
+	defer portSeq.mu.Unlock()
+	if portSeq.next == 0 {
+		portSeq.next = 12000 + (os.Getpid()%100)*500
+	}
+	for tries := 0; tries < 5000; tries++ {
+		p := portSeq.next
+		portSeq.next++
+		if portSeq.next >= 62000 {
+			portSeq.next = 12000
+		}
+		l, err := net.Listen("tcp", fmt.Sprintf("127.0.0.1:%d", p))
+		if err != nil {
+			continue
+		}
+		l.Close()
+		return p
+	}
+	panic("no free port")
+}
+
+// StartTCP starts the instance's listener and waits until a connection made by the harness is
+// registered by THIS instance (so a port grabbed by another process can never be mistaken for it).
 func (in *Inst) StartTCP(port int) error {
 	go in.S.Start()
 	deadline := time.Now().Add(10 * time.Second)
 	for time.Now().Before(deadline) {
+		before := in.S.VerifTCPClientCount()
 		c, err := net.DialTimeout("tcp", fmt.Sprintf("127.0.0.1:%d", port), 200*time.Millisecond)
 		if err == nil {
+			ok := false
+			for i := 0; i < 200 && !ok; i++ {
+				if in.S.VerifTCPClientCount() > before {
+					ok = true
+					break
+				}
+				time.Sleep(time.Millisecond)
+			}
 			c.Close()
-			return nil
+			if ok {
+				return nil
+			}
+			return errors.New("the port is served by another process")
 		}
 		time.Sleep(2 * time.Millisecond)
 	}
@@ -52,7 +86,13 @@ func Dial(port int) (*Client, error) {
 	if err != nil {
 		return nil, err
 	}
-	return &Client{c: c}, nil
+	cl := &Client{c: c}
+	// one round trip, so that the server has registered the connection before anything else happens
+	if _, _, err := cl.Do("PING"); err != nil {
+		c.Close()
+		return nil, err
+	}
+	return cl, nil
 }
 
 func (c *Client) Close() { _ = c.c.Close() }
